@@ -4,6 +4,7 @@ package main
 // compare with the committed baseline, replay failures, write evidence.
 
 import (
+	"sync"
 	"encoding/json"
 	"flag"
 	"fmt"
@@ -432,6 +433,73 @@ func cmdProp(args []string) int {
 			undecidedNew = append(undecidedNew, name)
 		}
 	}
+	// thorough tier: dynamic cross-check of the trusted generator. Every discharged postcondition of a
+	// function whose inputs the sweep can build (scalars, byte slices, strings) is ALSO executed on
+	// the real code over the seeded boundary sweep. A clause that was proved but fails at run time
+	// means the verifier (or a spec function's executable reading) is wrong: reported as a violation.
+	crossRuns, crossHolds, crossSkipped := 0, 0, 0
+	if *tier == "thorough" {
+		type job struct {
+			name string
+			o    *Obligation
+			c    *VC
+		}
+		var jobs []job
+		perFunc := map[string]int{}
+		for _, name := range order {
+			o := cur[name]
+			if _, ok := base.Claimed[name]; !ok || o.Kind != "ensures" || !oblOK(o) || o.Canary {
+				continue
+			}
+			c := owner[name]
+			if c.fn.Contract == nil || c.fn.Kind != "real" || strings.Contains(o.Text, "@return") {
+				continue
+			}
+			if perFunc[c.fn.Name] >= 6 {
+				continue
+			}
+			perFunc[c.fn.Name]++
+			jobs = append(jobs, job{name, o, c})
+		}
+		var mu sync.Mutex
+		var wg sync.WaitGroup
+		ch := make(chan job)
+		for w := 0; w < 8; w++ {
+			wg.Add(1)
+			go func() {
+				defer wg.Done()
+				for j := range ch {
+					rep := &replayResult{Obligation: j.o.Name, Kind: j.o.Kind, Clause: j.o.Text, Function: j.c.fn.Name, At: j.o.Pos, SolverStatus: j.o.Status, Solver: j.o.Solver, Property: *id}
+					rep.Note = "thorough-tier cross-check of a PROVED clause on the real code: "
+					replayRun(prog, j.c, j.o, dir, *repo, rep, true)
+					mu.Lock()
+					switch {
+					case strings.Contains(rep.Note, "not attempted"):
+						crossSkipped++
+					case rep.Reproduced:
+						crossRuns++
+						os.MkdirAll(replayDir, 0o755)
+						rfile := filepath.Join(replayDir, "crosscheck_"+sanitize(j.name)+".json")
+						data, _ := json.MarshalIndent(rep, "", " ")
+						os.WriteFile(rfile, data, 0o644)
+						viols = append(viols, viol{j.name + " (proved, but fails at run time)", rfile, false})
+					default:
+						crossRuns++
+						if strings.Contains(rep.TestOutput, "VERIF-REPLAY-HOLDS") {
+							crossHolds++
+						}
+					}
+					mu.Unlock()
+				}
+			}()
+		}
+		for _, j := range jobs {
+			ch <- j
+		}
+		close(ch)
+		wg.Wait()
+		fmt.Printf("crosscheck: %d proved clauses executed on the real code over the boundary sweep, %d hold, %d not executable (input types)\n", crossRuns, crossHolds, crossSkipped)
+	}
 	// recorded findings: genuine defects kept on record; printed while they still fail, never alarmed
 	for _, f := range findings {
 		if f.Kind != "finding" || f.Property != *id {
@@ -518,6 +586,9 @@ func cmdProp(args []string) int {
 			"bounded_obligations":      bounded,
 			"vacuity_canaries":         canaries,
 			"vacuity_canaries_sat":     canariesOK,
+			"crosscheck_runs":          crossRuns,
+			"crosscheck_holds":         crossHolds,
+			"crosscheck_not_executable": crossSkipped,
 			"stale":                    append(append([]string{}, stale...), staleObls...),
 			"undecided_new":            undecidedNew,
 			"unclaimed_obligations":    unclaimed,
